@@ -1,6 +1,66 @@
+import HranoModel.Lemmas.Walk
 import HranoModel.Model.Options
-import HranoModel.Model.Sink
-import HranoModel.Model.Chan
-/-! C06 property theorems (statements only in this file; helper lemmas live in Lemmas/) -/
+/-!
+C06 — date range selection is exact, inclusive and independent of layout and time zone.
+
+Property theorems only (helper lemmas: `Lemmas/Walk.lean`).  Instants are integers (ns since the
+epoch); a heading parsed with a date-only layout is a UTC midnight.  Not modelled: `naturaldate`
+free-text dates, DST transitions; the correctness of the day count itself (`Date.toDays/ofDays`)
+is validated by the `date` correspondence, not proved.
+-/
 namespace Hrano.C06
+open Hrano Hrano.App Hrano.Options
+
+/-- The interval test is exactly `begin ≤ d ≤ end`, each bound optional, both ends inclusive. -/
+theorem interval_exact (b e : Option Int) (t : Int) :
+    inInterval b e t = true ↔ (∀ x, b = some x → x ≤ t) ∧ (∀ y, e = some y → t ≤ y) := by
+  cases b <;> cases e <;> simp [inInterval] <;> omega
+
+/-- an inverted period selects nothing -/
+theorem inverted_is_empty (b e t : Int) (h : e < b) : inInterval (some b) (some e) t = false := by
+  simp [inInterval]; omega
+
+/-- **Selection = deletion.**  Walking a log with a period gives the same days and the same outcome as
+    walking, with no period, the log from which the records outside the period were deleted — for
+    every order of the days, repeated dates included.  Every period-aware report is a function of
+    this walk, so its output is the same too. -/
+theorem filter_eq_delete (l : Layout) (b e : Option Int) (se : Option ScanErr) (evs : List Event) :
+    walk l b e se evs = walk l none none se (evs.filter (inPeriod l b e)) :=
+  walk_filter l b e se evs
+
+/-- a period given on the sub-command overrides the global one; without it the global one applies -/
+theorem innermost_wins {α} (g : Option α) (v : α) : innermost g (some v) = some v ∧ innermost g (none : Option α) = g :=
+  ⟨rfl, rfl⟩
+
+/-- today / yesterday / last7 / last30 are resolved against the current date (`--today`) -/
+theorem keywords (now : Int) (l : Layout) :
+    timeFromString now l kwToday = .ok now
+    ∧ timeFromString now l kwYesterday = .ok (now - Date.nsPerDay)
+    ∧ timeFromString now l kwLast7 = .ok (now - 7 * Date.nsPerDay)
+    ∧ timeFromString now l kwLast30 = .ok (now - 30 * Date.nsPerDay) := by
+  refine ⟨?_, ?_, ?_, ?_⟩ <;> simp [timeFromString, kwToday, kwYesterday, kwLast7, kwLast30]
+
+/-- **`summary today` selects exactly today's headings in every time zone.**  `n` is the day number of
+    `--today` (a UTC midnight), `off` the zone offset in ns (|off| < 24h); the day is read off in
+    that zone (`x`), the window is `[x 00:00, x 24:00)` in that zone; a log day `y` (a UTC midnight)
+    lies in the window iff `y = n`. -/
+theorem summary_selects_day (n y off x b : Int) (h1 : -Date.nsPerDay < off) (h2 : off < Date.nsPerDay)
+    (hx : x = floorDiv (n * Date.nsPerDay + off) Date.nsPerDay) (hb : b = x * Date.nsPerDay - off) :
+    inInterval (some b) (some (b + Date.nsPerDay - 1)) (y * Date.nsPerDay) = true ↔ y = n := by
+  subst hb hx
+  simp only [floorDiv, Date.nsPerDay] at *
+  simp [inInterval]
+  omega
+
+/-- `summary DATE` (a date in the log's layout is a UTC midnight, read in UTC): exactly that day -/
+theorem summary_date_selects_day (d y : Int) :
+    inInterval (some (d * Date.nsPerDay)) (some (d * Date.nsPerDay + Date.nsPerDay - 1)) (y * Date.nsPerDay) = true ↔ y = d := by
+  simp only [Date.nsPerDay]
+  simp [inInterval]
+  omega
+
+/-! non-vacuity -/
+example : inInterval (some 5) (some 5) 5 = true := by decide
+example : floorDiv (18652 * Date.nsPerDay + (-18000 * 1000000000)) Date.nsPerDay = 18651 := by decide
+
 end Hrano.C06
